@@ -15,6 +15,7 @@ Reading of the statement in the model (ForML/Model/CrossVal.lean):
 -/
 import ForML.Lemmas.C12
 import ForML.Lemmas.C12Apply
+import ForML.Lemmas.C12Reduce
 import ForML.Model.CrossValActor
 
 namespace ForML.CrossVal
@@ -724,6 +725,100 @@ theorem C12_stack_noleak_every_pipeline (E : Env) (p b : Pipe) (sp : Nat) (xa xt
     (∀ r ∈ rows E block, ∀ x ∈ r.deps,
       x ∈ (select te (rows E xt)).deps ∨ x ∈ (select tr (rows E xt)).atoms ∨ x ∈ (select tr (rows E xl)).atoms) :=
   C12_stack_noleak E (denote p) (C12_pipeline_local E p) (denote b) (C12_pipeline_local E b) sp xa xt xl fid tr te hdec
+
+/-! ### the data-level default reducers: `evaluation._metric.mean` and `ensemble.pandas_mean` -/
+
+/-- **Every fold contributes exactly once, with weight `1/n` — a zero score included.**  The default reducer of the per-fold
+metric values `k / d` is the exact fraction `Σ k / (d · n)` over *all* `n` values; moving the score of any one fold by `δ`
+moves `n ·` mean by exactly `δ`; the order of the folds does not matter; a fold scoring `0` is counted (`n` grows, the sum
+stays) wherever it stands -/
+theorem C12_mean_all_folds (d : Nat) (xs : List Int) (h : xs ≠ []) :
+    meanReducer d xs = some ⟨xs.sum, d * xs.length⟩ ∧
+    (∀ i (hi : i < xs.length) (δ : Int), meanReducer d (xs.set i (xs[i] + δ)) = some ⟨xs.sum + δ, d * xs.length⟩) ∧
+    (∀ ys, xs.Perm ys → meanReducer d ys = meanReducer d xs) ∧
+    meanReducer d (xs ++ [0]) = some ⟨xs.sum, d * (xs.length + 1)⟩ ∧
+    meanReducer d (0 :: xs) = some ⟨xs.sum, d * (xs.length + 1)⟩ := by
+  have hne : xs.isEmpty = false := by cases xs <;> simp_all
+  refine ⟨by simp [meanReducer, hne], ?_, ?_, ?_, ?_⟩
+  · intro i hi δ
+    have : (xs.set i (xs[i] + δ)).isEmpty = false := by cases xs <;> simp_all
+    simp [meanReducer, this, sum_set_add xs i hi δ]
+  · intro ys hp
+    have : ys.isEmpty = false := by
+      cases ys with
+      | nil => exact absurd (List.Perm.eq_nil hp) h
+      | cons _ _ => rfl
+    simp [meanReducer, hne, this, sum_perm hp, hp.length_eq]
+  · simp [meanReducer]
+  · simp [meanReducer]
+
+/-- without a value the reducer refuses (`statistics.StatisticsError`) — and only then -/
+theorem C12_mean_no_data (d : Nat) (xs : List Int) : meanReducer d xs = none ↔ xs = [] := by
+  cases xs <;> simp [meanReducer]
+
+/-- **Apply mode combines the fold models row by row, positionally.**  For fold predictions of one shape the default
+reducer yields exactly one row per input row; row `i` is the exact mean `Σ_f fold_f[i] / (d · n)` of row `i` of *every* fold
+model's prediction; and it is equivariant under any selection / reordering / repetition `ps` of the input rows: row `j` of the
+result for the rows `ps` is row `ps[j]` of the result — nothing is sorted, grouped or merged (index labels play no role) -/
+theorem C12_stack_reduce_positional (d : Nat) (f : List Int) (rest : List (List Int))
+    (hshape : ∀ g ∈ rest, g.length = f.length) :
+    ∃ out, stackReduce d (f :: rest) = .ok out ∧ out.length = f.length ∧
+      (∀ i, i < f.length → out[i]? = some ⟨((f :: rest).map (·.getD i 0)).sum, d * (rest.length + 1)⟩) ∧
+      ∀ ps : List Nat, (∀ p ∈ ps, p < f.length) → stackReduce d ((f :: rest).map (pick ps)) = .ok (pick ps out) := by
+  have hall : rest.all (·.length == f.length) = true := by
+    simp only [List.all_eq_true, beq_iff_eq]; exact hshape
+  have hm : ∀ g ∈ f :: rest, g.length = f.length := by
+    intro g hg
+    rcases List.mem_cons.mp hg with rfl | hg
+    · rfl
+    · exact hshape g hg
+  refine ⟨(List.range f.length).map fun i => ⟨(rowAcross i (f :: rest)).sum, d * (f :: rest).length⟩,
+    by simp [stackReduce, hall], by simp, ?_, ?_⟩
+  · intro i hi
+    simp only [List.getElem?_map, List.getElem?_range hi, Option.map_some, List.length_cons]
+    rw [rowAcross_eq_map (f :: rest) f.length i hm hi]
+  · intro ps hps
+    have hlen : ∀ g ∈ f :: rest, (pick ps g).length = ps.length := fun g hg =>
+      pick_length ps g fun p hp => by rw [hm g hg]; exact hps p hp
+    have hall' : (rest.map (pick ps)).all (·.length == ps.length) = true := by
+      simp only [List.all_eq_true, beq_iff_eq, List.mem_map]
+      rintro _ ⟨g, hg, rfl⟩
+      exact hlen g (List.mem_cons_of_mem _ hg)
+    simp only [List.map_cons, stackReduce, hlen f List.mem_cons_self, List.length_cons, List.length_map]
+    rw [if_pos hall']
+    congr 1
+    apply List.ext_getElem?
+    intro j
+    rw [pick_getElem? ps _ (by simpa using hps) j]
+    by_cases hj : j < ps.length
+    · have h1 := rowAcross_pick (f :: rest) f.length hm ps hps j hj
+      simp only [List.map_cons] at h1
+      simp only [List.getElem?_map, List.getElem?_range hj, Option.map_some, h1, List.getElem?_eq_getElem hj,
+        Option.bind_some, List.getElem?_range (hps ps[j] (List.getElem_mem hj))]
+    · have hj' : ps.length ≤ j := Nat.le_of_not_lt hj
+      simp [hj']
+
+/-- no fold model, or fold predictions of different shapes: `ValueError('Folds must have same shape')` -/
+theorem C12_stack_reduce_refuses (d : Nat) (f : List Int) (rest : List (List Int)) :
+    stackReduce d [] = .error .valueError ∧
+    ((∃ g ∈ rest, g.length ≠ f.length) → stackReduce d (f :: rest) = .error .valueError) := by
+  refine ⟨rfl, ?_⟩
+  rintro ⟨g, hg, hne⟩
+  have : rest.all (·.length == f.length) = false := by
+    rw [List.all_eq_false]
+    exact ⟨g, hg, by simpa using hne⟩
+  simp [stackReduce, this]
+
+/-- three folds scoring 0, 7.5 and 15 (in eighths): the mean is 22.5 / 3 — the statement discriminates: dropping the fold
+that scored zero (a truthiness filter) gives 22.5 / 2 -/
+example : meanReducer 8 [0, 60, 120] = some ⟨180, 24⟩ ∧
+    meanReducer 8 ([0, 60, 120].filter (· != 0)) = some ⟨180, 16⟩ := by decide
+
+/-- two fold models on three live rows; picking the rows in the order 2, 0, 0 (an unsorted index with a repeated label)
+yields the reduced rows 2, 0, 0 — three rows, not two merged and sorted ones -/
+example : (stackReduce 8 [[60, 120, 180], [0, 60, 300]]).toOption = some [⟨60, 16⟩, ⟨180, 16⟩, ⟨480, 16⟩] ∧
+    (stackReduce 8 ([[60, 120, 180], [0, 60, 300]].map (pick [2, 0, 0]))).toOption
+      = some [⟨480, 16⟩, ⟨60, 16⟩, ⟨60, 16⟩] := by decide
 
 /-! ### non-vacuity: a concrete pipeline, data and splitter satisfying the hypotheses, with non-trivial provenance -/
 
